@@ -27,9 +27,14 @@ Shape C (lattice walk with edge laws) on the real classes:
   coverage-effect model and with both, evaluated with every keyword the getters accept (P, x, the per-species
   <name>_kwargs route, S_elements, raise_error / raise_warning; python-int and boundary values, explicit None):
   textbook value + the model's textbook contribution, G = H - TS dimensionless and in three units (one per mass),
-  array = scalar-by-scalar, both edge laws, a second call, a default call and a sibling species in between.
+  array = scalar-by-scalar, both edge laws, a second call, a default call and a sibling species in between;
+* NASA-9 mixed arrays (fourth round): break temperatures (each inside two segments; multisets, the same break twice)
+  x other in-range temperatures x temperatures outside every segment (below, above, in a gap; one, two, three) in
+  three orders, float and integer dtype, all 8 getters: refused as soon as one element is outside every segment,
+  however many others lie in two; scalar-by-scalar values otherwise.
 """
 import copy
+import itertools
 import math
 import warnings
 
@@ -46,7 +51,8 @@ RULE = ('product bounds-set x coefficient-set x (NASA-9: segment count x listing
         'integer, or is an array; call histories: object x how it was made x buffer dtype x first getter x '
         'event x second getter (every history is a distinct non-trivial case); conditions: object x dress (solid / gas / '
         'coverage model / both) x keyword set x how it was made, each evaluated on every temperature form (a case with '
-        'a non-empty keyword set is non-trivial)')
+        'a non-empty keyword set is non-trivial); NASA-9 mixed arrays: configuration x solid / gas species x break multiset x '
+        'in-range set x outside set x order x dtype, all 8 getters (every such array is non-trivial)')
 ASSUMPTIONS = [
     'segment bounds from the four sets of DESIGN C02 (NASA-9: up to two further break points per set, '
     'plus one set with a gap between segments); temperatures from a ratio lattice plus bounds, break '
@@ -215,7 +221,10 @@ PLANNED_TAGS = [
   + ['cond:dress=' + d for d in DRESSES] + ['cond:make=' + m for m in HIST_MAKES] \
   + sorted({'cond:keys=' + _cond_keys(CONDS[c]) for d in DRESSES for c in COND_BY_DRESS[d]}) \
   + ['cond:P-on-a-species-without-pressure-model', 'cond:x-on-a-species-without-coverage-model', 'cond:edge',
-     'cond:T=scalar', 'cond:T=int', 'cond:T=ndarray', 'cond:T=ndarray:int', 'cond:boundary-value']
+     'cond:T=scalar', 'cond:T=int', 'cond:T=ndarray', 'cond:T=ndarray:int', 'cond:boundary-value'] \
+  + ['mixed:breaks=%d' % n for n in range(4)] + ['mixed:outside=' + k for k in ('none', 'below', 'above', 'gap', 'both')] \
+  + ['mixed:order=' + k for k in ('out-last', 'out-first', 'interleaved')] + ['mixed:dtype=float', 'mixed:dtype=int',
+     'mixed:refused', 'mixed:all-in-range', 'mixed:as-many-break-hits-as-outside']
 
 
 def _ratio(tier):
@@ -241,6 +250,12 @@ def bounds(tier):
                                    else 'getter, event, getter: all 8x8 pairs for every make/dtype; plus getter, event, '
                                         'getter, event, getter on the diagonal for constructor-made objects',
                              coefficient_set=HIST_COEF, second_species=HIST_COEF2),
+                nasa9_mixed_arrays=dict(
+                    breaks='every multiset of 0-%d shared break temperatures + all of them' % (2 if tier == 'quick' else 3),
+                    in_range='none; first midpoint; T_low + last midpoint + T_high' + ('' if tier == 'quick' else '; two midpoints; both bounds'),
+                    outside='none; each single point below / above / in a gap; below + above (near, far); the same twice; with a gap point',
+                    orders=MIX_ORDERS, dtypes=['float64', 'int64 where every element is a whole number'],
+                    species=['solid', 'gas (misc model attached)'], coefficient_set=HIST_COEF),
                 array_containers=['ndarray (float dtype)', 'ndarray (int dtype)'], getters=GETTERS,
                 linearity='all pairs of basis vectors, multiples %s' % MULTIPLES,
                 quadrature='16-point Gauss-Legendre, 2 panels per edge')
@@ -629,6 +644,124 @@ def _check_outside(case, ctx):
                 'nasa9:outside-refused:' + ('scalar' if form == 'scalar' else 'array'))
         return
     ctx.fail('a temperature outside every NASA-9 segment is refused', sig, case, v, 'ValueError')
+
+
+# ---- NASA-9 arrays that MIX break temperatures, in-range and out-of-range temperatures (fourth round)
+MIX_ORDERS = ['out-last', 'out-first', 'interleaved']
+CL_REFUSED = 'a temperature outside every NASA-9 segment is refused'
+
+
+def _multisets(items, sizes):
+    out = []
+    for n in sizes:
+        out += [list(c) for c in itertools.combinations_with_replacement(items, n)]
+    return out
+
+
+def _mixed_parts(cfg, tier):
+    """(break multisets, in-range sets, outside sets) of a NASA-9 configuration.
+    breaks: temperatures shared by two segments (each lies in TWO intervals), every multiset of up to two of them
+    (thorough: three) and the set of all of them; in-range: nothing, a midpoint, both global bounds with a midpoint
+    (thorough: two more); outside: nothing (all in range), each single point below / above / in a gap, one below +
+    one above, the same one twice."""
+    segs = _segments(cfg)
+    shared = [h1 for (l1, h1), (l2, h2) in zip(segs[:-1], segs[1:]) if h1 == l2]
+    brk = _multisets(shared, (0, 1, 2) if tier == 'quick' else (0, 1, 2, 3))
+    if sorted(set(shared)) not in brk:
+        brk.append(sorted(set(shared)))
+    mids = [lo + 0.5 * (hi - lo) for lo, hi in segs]
+    glo, ghi = segs[0][0], segs[-1][1]
+    ins = [[], [mids[0]], [glo, mids[-1], ghi]]
+    if tier != 'quick':
+        ins += [[mids[0], mids[-1]], [glo, ghi]]
+    outs = _outside_points(cfg)
+    below = [T for T, k in outs if k == 'below']
+    above = [T for T, k in outs if k == 'above']
+    gap = [T for T, k in outs if k == 'gap']
+    out_sets = [([], 'none')] + [([T], 'below') for T in below] + [([T], 'above') for T in above] \
+        + [([T], 'gap') for T in gap] \
+        + [([below[0], above[0]], 'both'), ([below[1], above[1]], 'both'), ([above[1], above[1]], 'above')]
+    if gap:
+        out_sets += [([gap[0], above[0]], 'both'), ([below[1], gap[0], above[1]], 'both')]
+    return brk, ins, out_sets
+
+
+def _mixed_array(breaks, inside, outside, order):
+    R = sorted(list(breaks) + list(inside))
+    O = list(outside)
+    if order == 'out-last':
+        return R + O
+    if order == 'out-first':
+        return O + R[::-1]
+    out = []
+    for i in range(max(len(R), len(O))):
+        out += R[i:i + 1] + O[i:i + 1]
+    return out
+
+
+def _mixed_cases(cfg, tier):
+    brk, ins, out_sets = _mixed_parts(cfg, tier)
+    seen = set()
+    for b in brk:
+        for i in ins:
+            for o, okind in out_sets:
+                for order in MIX_ORDERS:
+                    Ts = _mixed_array(b, i, o, order)
+                    if not Ts or (len(Ts) < 2 and not o) or tuple(Ts) in seen:
+                        continue
+                    seen.add(tuple(Ts))
+                    dts = ['float'] + (['int'] if all(float(T) == int(T) for T in Ts) else [])
+                    for dt in dts:
+                        yield dict(kind='mixed', obj=cfg, Ts=Ts, nb=len(b), nout=len(o), out=okind, order=order, dtype=dt)
+
+
+def _check_mixed(case, ctx):
+    """NASA-9: one array mixing break temperatures (each inside TWO segments), other in-range temperatures and
+    temperatures outside every segment, all 8 getters: refused (ValueError) as soon as one element is outside every
+    segment, however many other elements lie in two; the scalar-by-scalar values otherwise."""
+    cfg, Ts, dt = case['obj'], case['Ts'], case['dtype']
+    o = _obj(cfg)
+    n_out = sum(1 for T in Ts if not _candidates(cfg, T)[0])
+    if n_out != case['nout']:
+        raise core.HarnessError('mixed array %r: %d elements outside, %d planned' % (Ts, n_out, case['nout']))
+    Tl = [int(T) for T in Ts] if dt == 'int' else [float(T) for T in Ts]
+    at = ('outside' if n_out else 'inside') + ('+break' if case['nb'] else '')
+    ctx.tag('mixed:breaks=%d' % min(case['nb'], 3))
+    ctx.tag('mixed:outside=' + case['out'])
+    ctx.tag('mixed:order=' + case['order'])
+    ctx.tag('mixed:dtype=' + dt)
+    if case['nb'] >= n_out > 0:
+        ctx.tag('mixed:as-many-break-hits-as-outside')
+    for getter in GETTERS:
+        sig = {'cls': 'Nasa9', 'getter': getter, 'T': 'array' + (':int' if dt == 'int' else ''), 'at': at}
+        arg = np.array(Tl)
+        before = arg.copy()
+        ctx.evals()
+        ctx.trans()
+        try:
+            res = _call(o, getter, arg)
+        except ValueError as e:
+            if 'no valid SingleNasa9' not in str(e):
+                raise
+            res = None
+        ctx.true(CL_INPUT, _same_array(arg, before), sig, case, arg.tolist(), Tl)
+        if n_out:
+            if res is None:
+                ctx.true(CL_REFUSED, True, sig, case)
+                ctx.tag('mixed:refused')
+            else:
+                ctx.fail(CL_REFUSED, sig, case, np.asarray(res).tolist(), 'ValueError')
+            continue
+        if res is None:
+            ctx.fail('array evaluation = scalar-by-scalar evaluation', sig, case, 'ValueError (no valid SingleNasa9)',
+                     'values: every element lies inside a segment')
+            continue
+        each = [float(np.ravel(_scalar(cfg, o, getter, T))[0]) for T in Tl]
+        if ctx.true('an array of N temperatures gives N values', np.size(res) == len(Tl), sig, case,
+                    list(np.shape(res)), len(Tl)):
+            ctx.close('array evaluation = scalar-by-scalar evaluation', np.ravel(np.asarray(res, dtype=float)), each,
+                      sig, case, rtol=1e-12, atol=0.0, scale=np.abs(each) + _array_scale(cfg, Tl, getter))
+            ctx.tag('mixed:all-in-range')
 
 
 def _note_outside(cfg, ctx):
@@ -1278,7 +1411,7 @@ def _run_cond(shard, ctx):
 
 
 CHECKS = dict(point=_check_point, edge=_check_edge, outside=_check_outside, array=_check_array,
-              lin=_check_lin, modarray=_check_modarray, hist=_check_hist, cond=_check_cond)
+              lin=_check_lin, modarray=_check_modarray, hist=_check_hist, cond=_check_cond, mixed=_check_mixed)
 
 
 def check_case(case, ctx):
@@ -1388,9 +1521,24 @@ def _run_lin_shard(shard, ctx):
                     ctx.nontrivial(('modarr', u, name, L))
 
 
+def _run_mixed(shard, ctx):
+    if shard['fam'] != 'nasa9':
+        return
+    tier = shard.get('hist', 'quick')
+    for cfg in (_shard_cfg(shard, HIST_COEF), _shard_cfg(shard, HIST_COEF, phase='G')):
+        for case in _mixed_cases(cfg, tier):
+            ctx.state(('mixed', _key(cfg), case['nb'], case['nout']))
+            ctx.run_case(check_case, case, {'cls': 'Nasa9', 'T': 'array', 'at': 'mixed'})
+            ctx.trace()
+            ctx.nontrivial(('mixed', _key(cfg), tuple(case['Ts']), case['dtype']))
+            if case['nb'] == 1 and case['nout'] == 1 and case['order'] == 'out-last':
+                ctx.sample(case, limit=1)
+
+
 def run_shard(shard, ctx):
     if shard['kind'] == 'obj':
         _run_obj_shard(shard, ctx)
+        _run_mixed(shard, ctx)
         _run_hist(shard, ctx)
         _run_cond(shard, ctx)
     else:
@@ -1411,7 +1559,10 @@ LEVEL_TEXT = ('Exhaustive lattice walk on real Nasa, Nasa9 and Shomate objects: 
               'configuration as a solid, a gas, with a coverage model and with both, under every accepted keyword (P, x, '
               'CO_kwargs, S_elements, raise_error / raise_warning) on scalars, ints and arrays: textbook value plus textbook model '
               'contribution, G = H - TS dimensionless and dimensional (per mol and per mass), array = scalar-by-scalar, both '
-              'derivative laws on one edge per segment, repeated / default / sibling-species calls in between.')
+              'derivative laws on one edge per segment, repeated / default / sibling-species calls in between. NASA-9 arrays '
+              'that mix break temperatures (inside two segments), other in-range temperatures and temperatures outside every '
+              'segment, in three orders and two dtypes, for all eight getters: refused if any element is outside, the '
+              'scalar-by-scalar values otherwise.')
 LEVEL_NOTE = ('Temperature lattice ratio 1.25 (quick) / 1.1 (thorough); Shomate in 4 (quick) / all 16 (thorough) fitting '
               'units; array lengths 1,2,3,7,50 (thorough adds 4,13,25) for the basis-vector objects and every length 1-13 and 50 '
               '(thorough 1-20, 25, 50) for the realistic, integer-typed and gas objects and the module-level Shomate evaluators, '
